@@ -63,6 +63,10 @@ theorem C04_gen_literals :
     Gen.Rot.eps = mkRat 5902958103587057 590295810358705651712 := by
   decide +kernel
 
+/-- OBLIGATION: `MatrixBase.__matmul__` / `__rmatmul__` multiply into a new object (never into
+`FrozenMatrix.copy()`, which is the frozen operand itself). -/
+theorem C04_gen_fresh : Gen.Rot.fmatProductFresh = true := by decide
+
 end Gen
 
 section Algebra
@@ -223,6 +227,11 @@ theorem C04_dispatch (l r : Tag) (f : Form) (hf : f ≠ .refl) :
   · cases l <;> cases r <;> rfl
   · cases l <;> cases r <;> rfl
   · exact absurd rfl hf
+
+/-- The same for the flag extracted from the current source. -/
+theorem C04_dispatch_gen (l r : Tag) (f : Form) (hf : f ≠ .refl) :
+    dispatch Gen.Rot.fmatProductFresh l r f = specEntry l r f := by
+  rw [C04_gen_fresh]; exact C04_dispatch l r f hf
 
 /-- **Dispatch table, direct `__rmatmul__` calls**: as `@`, except that `AngleBase.__rmatmul__`
 does not accept a matrix on the left (that case is `MatrixBase.__matmul__`'s), and for two angles
